@@ -66,7 +66,7 @@ _c05_circ_thorough = _c05_circ_shards(
     [(B_TET3_RING, 0, [0], 1, _G4), (B_TET3_RING, 1, [0, 4], 1, _G4), (B_TET3_RING, 2, [0, 9], 1, _G4),
      (B_TET3_RING, 3, [0, 8], 1, _G4), (B_TET3_RING, 4, [0], 1, _G4)])
 _c05_circ_big = _c05_circ_shards(
-    [(b, 0, [0], 1, _G4) for b in (B_HEX, B_PRISM_PYR)] +
+    [(b, 0, [0], 1, _G4) for b in (B_HEX, B_PRISM_PYR)] + [(B_TWOFACE, 0, [0], 1, [8, 1])] +   # TWOFACE: a cell sharing two faces with one neighbour (cell- and vertex-centred groups)
     [(B_HEX, 1, [0, 7], 1, _G4), (B_HEX, 2, [0, 11], 1, _G4), (B_HEX, 3, [0, 5], 1, _G4),
      (B_PRISM_PYR, 1, [6], 1, _G4), (B_PRISM_PYR, 3, [3], 1, _G4), (B_PRISM_PYR, 4, [0, 1], 1, _G4)])
 
